@@ -7,7 +7,8 @@
    Characters: a b (letters used by the specs), x (never specified), '-', '='. *)
 EXTENDS Getopt, TLC, Json
 CONSTANTS MaxLen,        \* longest argument list
-          PoolSel,       \* "full": lists over Pool; "mixed": lists of MaxLen only over SmallPool
+          PoolSel,       \* "full": all lists up to MaxLen over Pool; "small"/"tiny": lists of exactly
+                         \* MaxLen over SmallPool/TinyPool; "extra": lists up to MaxLen over ExtraPool
           SpecLo, SpecHi \* range of spec-set numbers handled by this run
 VARIABLES cfg, sn, args, st, prev, roles
 vars == <<cfg, sn, args, st, prev, roles>>
@@ -41,6 +42,14 @@ Pool == { <<>>, <<D>>, <<D, D>>, <<a>>,
 SmallPool == { <<>>, <<D, D>>, <<a>>, <<D, a>>, <<D, b>>, <<D, a, b>>, <<D, x, a>>,
                <<D, D, a, b>>, <<D, D, b, a>>, <<D, D, a, b, E, x>>, <<D, D, x, x>>, <<D, b, a>> }
 
+TinyPool == { <<a>>, <<D, D>>, <<D, a>>, <<D, b, a>>, <<D, D, b, a>>, <<D, D, a, b, E, x>> }
+\* directed probes: the empty long name, a byte that is not UTF-8, NUL
+BAD == MaxRune + 1 + 255
+NUL == 0
+ExtraPool == { <<D, D, E, x>>, <<D, D, E>>, <<D, E, x>>, <<D, BAD>>, <<D, a, BAD, b>>, <<D, BAD, a, b>>, <<D, NUL>>,
+               <<D, D, BAD>>, <<BAD>>,
+               <<a>>, <<D, a>>, <<D, b>>, <<D, D, a, b>>, <<D, D>>, <<>> }
+
 Cfgs == [dd : BOOLEAN, bsd : BOOLEAN, lo : BOOLEAN]
 
 Init == /\ cfg \in Cfgs
@@ -50,7 +59,8 @@ Init == /\ cfg \in Cfgs
         /\ prev = Init0
         /\ roles = <<>>
 
-Tokens == IF PoolSel = "full" THEN Pool ELSE SmallPool
+Tokens == CASE PoolSel = "full" -> Pool [] PoolSel = "small" -> SmallPool
+            [] PoolSel = "tiny" -> TinyPool [] PoolSel = "extra" -> ExtraPool
 
 Next == /\ Len(args) < MaxLen
         /\ \E tok \in Tokens :
@@ -64,7 +74,7 @@ Next == /\ Len(args) < MaxLen
 SpecsOK == WellFormedSpecs(specs)
 
 \* determinism and totality: for every possible next element exactly one action is enabled
-OneAction == \A tok \in Pool : Cardinality({act \in Actions : Guard(act, st, tok, cfg)}) = 1
+OneAction == \A tok \in Pool \cup ExtraPool : Cardinality({act \in Actions : Guard(act, st, tok, cfg)}) = 1
 
 \* the fold used by the judges is the machine
 ScanAgrees == st = Scan(args, specs, cfg, "word")
@@ -130,14 +140,15 @@ CompleteIsParse == Len(args) >= 1 =>
      comp    = [opts, extra, rest, ctxType, ctxOpt (<<>> or <<option>>), ctxText, unspec]
    Line: {"g": cfg bits dd+2*bsd+4*lo, "n": spec set number, "a": args, "p": parse,
           "q": <<>> or <<parse under variant "long">> when it differs, "c": <<>> or <<comp>>,
-          "d": <<>> or <<comp under variant "long">> when it differs}
+          "d": <<>> or <<comp under variant "long">> when it differs,
+          "e": <<>> or <<CompleteGetoptObs>> (GNU configuration only, when the completion is specified)}
    Spec sets are printed once (from the states with the empty list) as {"n":.., "specs":..}. *)
 B2I(v) == IF v THEN 1 ELSE 0
 OptT(o) == <<o.spec, o.long, o.name, o.arg>>
 OptsT(os) == [i \in 1..Len(os) |-> OptT(os[i])]
 ParseT(r) == <<OptsT(r.opts), r.rest, r.err, r.unspec>>
 CompT(c) == <<OptsT(c.opts), OptsT(c.extra), c.rest, c.ctx.type, OptsT(c.ctx.opt), c.ctx.text, c.unspec>>
-EmitThis == PoolSel = "full" \/ Len(args) = MaxLen
+EmitThis == PoolSel \in {"full", "extra"} \/ Len(args) = MaxLen
 HasDD == \E i \in 1..Len(args) : args[i] = DD
 Emit == /\ (args = <<>>) => PrintT(ToJson([n |-> sn, specs |-> specs]))
         /\ EmitThis =>
@@ -145,7 +156,10 @@ Emit == /\ (args = <<>>) => PrintT(ToJson([n |-> sn, specs |-> specs]))
                  q  == IF HasDD /\ ~cfg.dd THEN ParseT(Parse(args, specs, cfg, "long")) ELSE p
                  c  == IF args = <<>> THEN <<>> ELSE <<CompT(CompleteOf(prev, args[Len(args)], specs, cfg))>>
                  d  == IF args # <<>> /\ HasDD /\ ~cfg.dd THEN <<CompT(Complete(args, specs, cfg, "long"))>> ELSE c
+                 cc == CompleteOf(prev, args[Len(args)], specs, cfg)
+                 e  == IF args # <<>> /\ cfg = [dd |-> TRUE, bsd |-> FALSE, lo |-> FALSE] /\ ~cc.unspec
+                       THEN <<CompleteGetoptObs(cc, specs)>> ELSE <<>>
              IN  PrintT(ToJson([g |-> B2I(cfg.dd) + 2 * B2I(cfg.bsd) + 4 * B2I(cfg.lo), n |-> sn, a |-> args,
                                 p |-> p, q |-> IF q = p THEN <<>> ELSE <<q>>,
-                                c |-> c, d |-> IF d = c THEN <<>> ELSE d]))
+                                c |-> c, d |-> IF d = c THEN <<>> ELSE d, e |-> e]))
 =============================================================================
